@@ -19,10 +19,16 @@ macro_rules! endian_fn {
             ensure!(w == v, "{}: W::from({:#x}) == {:#x} is false", $wname, v, v);
             ensure!(v == w, "{}: {:#x} == W::from({:#x}) is false", $wname, v, v);
             ensure!(w == <$W>::from(v), "{}: W == W reflexive", $wname);
+            // the `!=` operators (overridable separately from `==`) agree with `==`
+            ensure!(!(w != v), "{}: W::from({:#x}) != {:#x} is true", $wname, v, v);
+            ensure!(!(v != w), "{}: {:#x} != W::from({:#x}) is true", $wname, v, v);
+            ensure!(!(w != <$W>::from(v)), "{}: W != W for the same value {:#x}", $wname, v);
             for u in [v.swap_bytes(), v.wrapping_add(1), v.wrapping_sub(1), !v, extra] {
                 if u != v {
                     ensure!(!(w == u), "{}: W::from({:#x}) == {:#x} is true", $wname, v, u);
                     ensure!(!(u == w), "{}: {:#x} == W::from({:#x}) is true", $wname, u, v);
+                    ensure!(w != u, "{}: W::from({:#x}) != {:#x} is false", $wname, v, u);
+                    ensure!(u != w, "{}: {:#x} != W::from({:#x}) is false", $wname, u, v);
                     ensure!(w != <$W>::from(u), "{}: W::from({:#x}) == W::from({:#x})", $wname, v, u);
                 }
             }
